@@ -63,7 +63,8 @@ def values_for(name):
                 ("two", lambda: [(datetime(2024, 3, 1, 8, tzinfo=UTC), timedelta(hours=1)), (datetime(2024, 3, 2, 8, tzinfo=UTC), datetime(2024, 3, 2, 9, 30, tzinfo=UTC))]),
                 ("zoned", lambda: (zoned(ZA, 2024, 3, 1, 8), zoned(ZA, 2024, 3, 1, 9)))]
     if typ == "DURATION":
-        v = [("1h", lambda: timedelta(hours=1)), ("-15m", lambda: timedelta(minutes=-15)), ("1d", lambda: timedelta(days=1))]
+        v = [("1h", lambda: timedelta(hours=1)), ("-15m", lambda: timedelta(minutes=-15)), ("1d", lambda: timedelta(days=1)),
+             ("zero", lambda: timedelta(0))]
         if "DATE-TIME" in alts:
             v.append(("abs-utc", lambda: datetime(2024, 3, 1, 8, tzinfo=UTC)))
         return v
